@@ -134,7 +134,7 @@ func genFD(g *vlib.G) {
 						set := func(conc bool) *fd.Settings {
 							return &fd.Settings{Formula: fm.f, Step: 1, OriginKnown: ok, OriginValue: poly(x0), Concurrent: conc}
 						}
-						if (dim == 1 || (g.Thorough() && dim == 2)) && fm.name != "Backward" {
+						if (dim == 1 || (dim == 2 && (g.Thorough() || (dirty && procs == 2)))) && fm.name != "Backward" {
 							g.Case("Hessian "+key, func(t *vlib.T) {
 								vrt.Procs = procs
 								defer func() { vrt.Procs = 0 }()
